@@ -19,7 +19,16 @@ def _run(args):
     os.makedirs(outdir, exist_ok=True)
     rc, out, err = sh([binp, mode, str(seed), str(count), outdir], timeout=1200)
     if rc != 0:
-        return {"dir": outdir, "error": f"chan_v({prof}) rc={rc}: {err[-400:]}"}
+        r = {"dir": outdir, "error": f"chan_v({prof}) rc={rc}: {err[-400:]}"}
+        cp = os.path.join(outdir, "cur.txt")
+        if rc not in (124, 101, 2) and os.path.exists(cp):
+            # the process died (signal / abort) while the real conversion ran this script
+            t = open(cp).read().strip().split(" ")
+            if len(t) >= 2 and t[0].replace("-w", "") in PAIRS:
+                lay = PAIRS[t[0].replace("-w", "")]
+                r["crash"] = f"vec {lay[0]} {lay[1]} {lay[2]} {lay[3]} {t[1]} " + " ".join(t[2:])
+                r["profile"] = prof
+        return r
     with open(os.path.join(outdir, "req.txt")) as fin, open(os.path.join(outdir, "model.txt"), "w") as fout:
         p = subprocess.run([DRV], stdin=fin, stdout=fout, stderr=subprocess.PIPE, text=True)
     if p.returncode != 0:
@@ -57,6 +66,9 @@ def run(seed, tier):
 
 
 FAIL = {"e", "p1", "p2", "p3"}
+PAIRS = {"plain": (8, 4, 8, 4), "heap": (16, 8, 16, 8), "big": (4096, 8, 4096, 8), "over": (64, 64, 64, 64), "ne-size": (8, 4, 16, 8),
+         "ne-align": (16, 4, 16, 8), "ne-both": (8, 4, 16, 16), "ne-heap": (16, 8, 8, 4), "ne-align-down": (16, 8, 16, 4),
+         "ne-align-down2": (16, 16, 16, 8), "ne-size-down": (16, 8, 8, 4)}
 
 
 def oracle(req, ans):
@@ -98,9 +110,9 @@ def oracle(req, ans):
             hits.append(("C08", f"call {k} received previous output {got}, the most recent output is {want}"))
             break
         code = script[k] if k < len(script) else "c"
-        if outs_now and code == "t":
+        if outs_now and code in ("t", "ta"):
             outs_now[-1] = (outs_now[-1][0], outs_now[-1][1] + 1)
-        if outs_now and code == "r":
+        if outs_now and code in ("r", "ra"):
             outs_now[-1] = (200000 + k, 0)
         if code in ("c", "t", "r"):
             outs_now.append((100000 + k, 0))
